@@ -15,6 +15,8 @@ pub enum Op {
     Remove(&'static str, &'static str),
     Inc(&'static str, &'static str),
     Snapshot(&'static str),
+    /// a space-reclaiming snapshot (it drops the tombstones of removed keys from memory)
+    SnapshotReclaim(&'static str),
 }
 
 fn op_name(o: &Op) -> String {
@@ -24,6 +26,7 @@ fn op_name(o: &Op) -> String {
         Op::Remove(d, k) => format!("remove {}.{}", d, k),
         Op::Inc(d, k) => format!("increment {}.{}", d, k),
         Op::Snapshot(d) => format!("snapshot {}", d),
+        Op::SnapshotReclaim(d) => format!("reclaiming snapshot {}", d),
     }
 }
 
@@ -44,13 +47,14 @@ fn exec_op(w: &mut NetWorld, o: &Op) -> Result<(), String> {
             lines.push(format!("increment {}", k));
         }
         Op::Snapshot(d) => lines.push(format!("snapshot false {}", d)),
+        Op::SnapshotReclaim(d) => lines.push(format!("snapshot true {}", d)),
     }
     lines.push("<eof>".into());
     let refs: Vec<&str> = lines.iter().map(|s| s.as_str()).collect();
     w.add_client(0, &refs, true);
     w.run_to_quiescence(20000)?;
     w.clients.clear();
-    if let Op::Snapshot(_) = o {
+    if let Op::Snapshot(_) | Op::SnapshotReclaim(_) = o {
         w.run_snapshot_queues();
     }
     Ok(())
@@ -111,7 +115,7 @@ fn provenance(c: &Case, db: &str, key: &str) -> &'static str {
     match c.before.iter().rposition(touches) {
         None => "never written",
         Some(i) => {
-            if c.before[i + 1..].iter().any(|o| matches!(o, Op::Snapshot(d) if *d == db)) {
+            if c.before[i + 1..].iter().any(|o| matches!(o, Op::Snapshot(d) | Op::SnapshotReclaim(d) if *d == db)) {
                 "snapshotted before the joiner left"
             } else {
                 "in the tail the joiner held only in memory"
@@ -179,7 +183,12 @@ pub fn run_case(c: &Case) -> Result<Vec<(String, String, String)>, String> {
                     }
                     for (k, (jv, _)) in jkeys.iter() {
                         if !keys.contains_key(k) {
-                            out.push(("removed-key-still-on-joiner".to_string(), format!("removed key ({})", provenance(c, db, k)), format!("{}.{} was removed on the primary, the joiner still has {:?}", db, k, jv)));
+                            // a reclaiming snapshot on the primary after the remove drops the tombstone, the only
+                            // thing a full sync could have told the joiner about
+                            let all: Vec<&Op> = c.before.iter().chain(c.away.iter()).collect();
+                            let last_rm = all.iter().rposition(|o| matches!(o, Op::Remove(d, kk) if *d == db.as_str() && *kk == k.as_str()));
+                            let reclaimed = last_rm.map(|i| all[i + 1..].iter().any(|o| matches!(o, Op::SnapshotReclaim(d) if *d == db.as_str()))).unwrap_or(false);
+                            out.push(("removed-key-still-on-joiner".to_string(), format!("removed key ({}{})", provenance(c, db, k), if reclaimed { ", tombstone reclaimed on the primary" } else { "" }), format!("{}.{} was removed on the primary, the joiner still has {:?}", db, k, jv)));
                         }
                     }
                 }
@@ -243,7 +252,9 @@ pub fn cases(quick: bool) -> Vec<Case> {
     // key it had never seen was written after its last snapshot), so it gets a FULL sync on top of
     // what its disk holds; everything of the history happens while it is away
     let mut histories3: Vec<Vec<Op>> = vec![];
-    rec(&mut vec![], &letters, if quick { 2 } else { 3 }, &mut histories3);
+    let mut letters3 = letters.clone();
+    letters3.push(Op::SnapshotReclaim("d1"));
+    rec(&mut vec![], &letters3, if quick { 2 } else { 3 }, &mut histories3);
     for h in histories3 {
         let before = vec![Op::CreateDb("d1", "none"), Op::Set("d1", "b", "v"), Op::Set("d1", "a", "v"), Op::Snapshot("d1"), Op::Inc("d1", "fresh")];
         out.push(Case { before, away: h, joiner: Joiner::FromDisk });
